@@ -201,3 +201,15 @@ CHECKS["C04"] = {
     "stubs": [], "assumptions": ["whether try and catch are one block or two is not asserted (the statement leaves it open)", "the init variable of a C-style loop is not asserted"],
     "outside": ["name pools beyond {x, y}", "programs are parsed from templates: their shapes are enumerated, only the bound values are symbolic"],
 }
+
+CHECKS["C02"] = {
+    "corpus": True,
+    "runs": [R("./vm", {"fn": r"^ZZ_C02_"})],
+    "expect_asserts": [r"C02\.returns-execution-interrupted/loop/none", r"C02\.no-side-effect-after-cancellation/.*", r"C02\.no-statement-after-the-interrupted-one/.*/try-catch", r"C02\.entry/nothing-executed", r"C02\.returns-execution-interrupted/chan-send/.*"],
+    "bounds": {"cores": "20 spinning / blocking cores (three loop forms, for-in over slice/map/channel, channel send/receive/receive statement, recursion, calls through the direct path with 0/2/4 parameters, the reflect path with 5 parameters, variadic, spread, anonymous, from a container, deferred, callback from a host function)",
+               "wrappers": "12 (try/catch[/finally], ?? left, if/switch/module/function bodies, catch and finally blocks, deferred call, nested try)", "cancellation instant": "poll 0..7 (every Done() call is a poll); for blocking cores the cancellation arrives while blocked",
+               "instruction budget": "3,000,000 per run: exceeding it after the cancellation was delivered is the violation 'terminates'"},
+    "stubs": ["context: a harness context whose Done() counts polls and closes at poll c; a canceller goroutine for blocking operations", "channels / select: engine model of Go's channel semantics"],
+    "assumptions": ["logical time: polls and instructions instead of wall-clock time", "host functions return immediately (the single-host-call exclusion of the property)"],
+    "outside": ["wall-clock latency and OS scheduling: not functions of the encoded code (not applicable to the technique)"],
+}
